@@ -6,6 +6,10 @@ package rt
 import (
 	"encoding/json"
 	"fmt"
+	"go/ast"
+	"go/parser"
+	"go/token"
+	"strconv"
 	"math/rand"
 	"os"
 	"path/filepath"
@@ -55,12 +59,14 @@ type Family struct {
 	Select    func(units []*Unit, tier string, rng *rand.Rand) []*Unit
 	Calls     func(u *Unit, i int, text string) []work.Call // default: one JSON call per document
 	Level     string
+	Consts    bool // observe the string constants declared by each (singleton) program
 	Rule      string
 	ExtraCfg  func(tier string) string // extra CONSTANTS lines for the MC cfg
 	Assume    []string
 }
 
 type Report struct {
+	Kind  string   `json:"kind"`
 	L     int      `json:"l"`
 	I     int      `json:"i"`
 	Class string   `json:"class"`
@@ -78,12 +84,14 @@ type obsEvent struct {
 	Unit   map[string]any `json:"unit"`
 	Res    []obsRes       `json:"res"`
 	GoType string         `json:"gotype"` // Go type of the field bound to property "x" ("" if none)
+	Consts []any          `json:"consts,omitempty"` // values of the string constants declared by the program
 }
 
 type obsRes struct {
 	Err       bool `json:"err"`
 	Panic     bool `json:"panic"`
-	Val       any  `json:"val"`
+	Val       any  `json:"val"` // reflective dump of the destination after the call (JV document, or {t:"none"})
+	Out       any  `json:"out"` // json.Marshal of the destination after the call (JV document, or {t:"none"})
 	Unchanged bool `json:"unchanged"`
 }
 
@@ -99,6 +107,8 @@ type Exec struct {
 	Built   bool
 	BuildErr string
 	Out     *work.RunOut
+	Consts  []string
+	HasConsts bool
 }
 
 func devSet(devs []string) string {
@@ -291,6 +301,9 @@ func Execute(f *Family, sc *work.Scratch, tag string, units []*Unit, pack int) (
 		}
 		for _, e := range byProg[p.id] {
 			e.Built = true
+			if f.Consts {
+				e.Consts, e.HasConsts = stringConsts(filepath.Join(sc.Mod, "gen", p.id, "root.go"))
+			}
 		}
 		okProgs = append(okProgs, work.Prog{Key: p.id, PkgPath: "gen/" + p.id, Type: "RootJson"})
 	}
@@ -364,6 +377,36 @@ func Execute(f *Family, sc *work.Scratch, tag string, units []*Unit, pack int) (
 
 func tagGlob(tag string) string { return "..." }
 
+// stringConsts returns the values of all `const X T = "..."` declarations of a generated file.
+func stringConsts(path string) ([]string, bool) {
+	fset := token.NewFileSet()
+	file, err := parser.ParseFile(fset, path, nil, 0)
+	if err != nil {
+		return nil, false
+	}
+	var out []string
+	for _, d := range file.Decls {
+		gd, ok := d.(*ast.GenDecl)
+		if !ok || gd.Tok != token.CONST {
+			continue
+		}
+		for _, sp := range gd.Specs {
+			vs, _ := sp.(*ast.ValueSpec)
+			if vs == nil || vs.Type == nil {
+				continue
+			}
+			for _, v := range vs.Values {
+				if bl, ok := v.(*ast.BasicLit); ok && bl.Kind == token.STRING {
+					if s, err := strconv.Unquote(bl.Value); err == nil {
+						out = append(out, s)
+					}
+				}
+			}
+		}
+	}
+	return out, true
+}
+
 func unitSchema(u *Unit, ren abs.RefRename) (string, error) {
 	m := map[string]any{}
 	s, _ := u.Raw["schema"].(map[string]any)
@@ -382,19 +425,38 @@ func Observation(e *Exec) (*obsEvent, error) {
 		return nil, nil
 	}
 	ev := &obsEvent{Unit: e.Unit.Raw}
+	if e.HasConsts {
+		ev.Consts = []any{}
+		for _, c := range e.Consts {
+			b, _ := json.Marshal(c)
+			v, err := abs.FromJSON(string(b))
+			if err != nil {
+				v = abs.M{"t": "odd", "x": c}
+			}
+			ev.Consts = append(ev.Consts, v)
+		}
+	}
 	if e.Packed {
 		ev.GoType = e.Out.Types[fmt.Sprintf("s%d.x", e.Slot)]
 	} else {
 		ev.GoType = e.Out.Types["x"]
 	}
 	for _, r := range e.Out.Res {
-		or := obsRes{Err: r.Err, Panic: r.Panic, Unchanged: r.Unchanged, Val: abs.M{"t": "none"}}
-		if r.Out != "" {
-			v, err := abs.FromJSON(r.Out)
-			if err == nil {
-				if e.Packed {
-					v = pick(v, fmt.Sprintf("s%d", e.Slot))
-				}
+		or := obsRes{Err: r.Err, Panic: r.Panic, Unchanged: r.Unchanged, Val: abs.M{"t": "none"}, Out: abs.M{"t": "none"}}
+		for k, text := range map[string]string{"out": r.Out, "val": r.Dump} {
+			if text == "" {
+				continue
+			}
+			v, err := abs.FromJSON(text)
+			if err != nil {
+				continue
+			}
+			if e.Packed {
+				v = pick(v, fmt.Sprintf("s%d", e.Slot))
+			}
+			if k == "out" {
+				or.Out = v
+			} else {
 				or.Val = v
 			}
 		}
